@@ -4,10 +4,12 @@ import json
 import glob, os
 props = {os.path.basename(p)[:-5]: json.load(open(p)) for p in glob.glob("props/C*.json")}
 ids = ["C%02d" % i for i in range(1, 21)]
+# Only properties listed in claimed.txt (maintained by hand, after review and a passing check) are claimed.
+claimed = set(open("claimed.txt").read().split())
 checks, na = [], []
 for pid in ids:
     c = props.get(pid)
-    if not c or not c.get("ready", False):
+    if not c or pid not in claimed:
         na.append({"property_id": pid, "reason": (c or {}).get("na_reason", "no check registered yet: model, proofs and correspondence for this property are still being built (see DESIGN.md section 7); proof in Lean applies in principle")})
         continue
     checks.append({
